@@ -450,6 +450,148 @@ def parse_expr(src):
     return e
 
 
+
+# ------------------------------------------------------------------------------ incompatibility.rs constructors
+class IncParser(P):
+    """the external constructors of Incompatibility: `let` statements followed by a `Self { package_terms: E, kind: K }`
+    literal; E built from SmallMap::One/Two array literals of (package, term) pairs and if / else-if / else"""
+    PKG = {"package", "p1", "p2"}
+
+    def stmts(self):
+        lets = []
+        while self.peek() == "let":
+            self.eat("let")
+            if self.peek() == "(":
+                self.eat("(")
+                a = self.eat(); self.eat(","); b = self.eat(); self.eat(")")
+                self.eat("=")
+                rhs = self.val()
+                self.eat(";")
+                lets.append("let '(%s, %s) := %s in" % (a, b, rhs))
+            else:
+                x = self.eat()
+                self.eat("=")
+                rhs = self.val()
+                self.eat(";")
+                lets.append("let %s := %s in" % (x, rhs))
+        self.eat("Self")
+        self.eat("{")
+        fields = {}
+        while self.peek() != "}":
+            f = self.eat()
+            self.eat(":")
+            fields[f] = self.val()
+            if self.peek() == ",":
+                self.eat()
+        self.eat("}")
+        if self.peek() is not None:
+            raise ParseError("trailing tokens after the struct literal")
+        if set(fields) != {"package_terms", "kind"}:
+            raise ParseError("unexpected fields %s" % sorted(fields))
+        return " ".join(lets + ["{| terms := %s; ikind := %s |}" % (fields["package_terms"], fields["kind"])])
+
+    def val(self):
+        x = self.peek()
+        if x == "if":
+            self.eat("if")
+            c = self.cond()
+            self.eat("{"); a = self.val(); self.eat("}")
+            self.eat("else")
+            if self.peek() == "if":
+                b = self.val()
+            else:
+                self.eat("{"); b = self.val(); self.eat("}")
+            return "(if %s then %s else %s)" % (c, a, b)
+        e = self.simple()
+        return e
+
+    def cond(self):
+        a = self.simple()
+        self.eat("==")
+        b = self.simple()
+        if a in self.PKG or b in self.PKG:
+            return "N.eqb %s %s" % (a, b)
+        return "vs_eqb O %s %s" % (a, b)
+
+    def args(self, close):
+        out = []
+        while self.peek() != close:
+            out.append(self.val())
+            if self.peek() == ",":
+                self.eat()
+        self.eat(close)
+        return out
+
+    def simple(self):
+        x = self.peek()
+        if x == "&":
+            self.eat()
+            return self.simple()
+        if x == "(":
+            self.eat("(")
+            items = self.args(")")
+            e = items[0] if len(items) == 1 else "(" + ", ".join(items) + ")"
+        elif x == "[":
+            self.eat("[")
+            items = self.args("]")
+            e = "[" + "; ".join(items) + "]"
+        else:
+            name = self.path()
+            base = name.split("::")[-1]
+            if self.peek() == "(":
+                self.eat("(")
+                a = self.args(")")
+                if name in ("SmallMap::One", "SmallMap::Two"):
+                    e = a[0]
+                elif base in ("Positive", "Negative"):
+                    e = "(%s %s)" % (CTORS[base], a[0])
+                elif name == "VS::singleton":
+                    e = "(vs_singleton O %s)" % a[0]
+                elif name == "VS::empty" and not a:
+                    e = "(vs_empty O)"
+                elif name.startswith("Kind::"):
+                    k = {"NotRoot": "KNotRoot", "NoVersions": "KNoVersions", "FromDependencyOf": "KFromDep", "Custom": "KCustom"}[base]
+                    e = "(%s %s)" % (k, " ".join(a))
+                else:
+                    raise ParseError("unknown call " + name)
+            else:
+                e = name
+        while self.peek() == ".":
+            self.eat(".")
+            m = self.eat()
+            self.eat("(")
+            a = self.args(")")
+            if m == "clone" and not a:
+                pass
+            elif m == "intersection" and len(a) == 1:
+                e = "(vs_intersection O %s %s)" % (e, a[0])
+            elif m == "union" and len(a) == 1:
+                e = "(vs_union O %s %s)" % (e, a[0])
+            elif m == "complement" and not a:
+                e = "(vs_complement O %s)" % e
+            else:
+                raise ParseError("unknown method " + m)
+        return e
+
+
+def incompat_ctors(repo, out):
+    inc = open(os.path.join(repo, "src", "internal", "incompatibility.rs")).read()
+    defs = []
+    for (name, header, params) in [
+            ("not_root", r"pub\(crate\) fn not_root\(package: P, version: VS::V\)\s*->\s*Self\s*\{", "(package : pkg) (version : Vr)"),
+            ("custom_version", r"pub\(crate\) fn custom_version\(package: P, version: VS::V, metadata: M\)\s*->\s*Self\s*\{",
+             "(package : pkg) (version : Vr) (metadata : N)"),
+            ("from_dependency", r"pub\(crate\) fn from_dependency\(package: P, versions: VS, dep: \(P, VS\)\)\s*->\s*Self\s*\{",
+             "(package : pkg) (versions : VS) (dep : pkg * VS)")]:
+        body = fn_body(inc, header)
+        g = IncParser(tokenize(body)).stmts()
+        defs.append("  Definition gen_%s %s : @incompat VS Vr :=\n    %s." % (name, params, g))
+    text = ("(* GENERATED by tools/translate.py from /repo/src/internal/incompatibility.rs — do not edit, never committed *)\n"
+            "From Coq Require Import List NArith.\nFrom PG Require Import Model.VS Model.Term Model.Solver.\nImport ListNotations.\n\n"
+            "Section GenIncompat.\n  Context {VS Vr : Type} (O : VSOps VS Vr).\n\n" + "\n\n".join(defs) + "\n\nEnd GenIncompat.\n")
+    open(os.path.join(out, "IncompatCtors.v"), "w").write(text)
+
+
 def main():
     repo, out = sys.argv[1], sys.argv[2]
     os.makedirs(out, exist_ok=True)
@@ -556,7 +698,8 @@ def main():
              "Section GenVS.\n  Context {VS Vr : Type} (R : VSReq VS Vr).\n\n" +
              "\n\n".join(defs) + "\n\nEnd GenVS.\n")
     open(os.path.join(out, "VSDefaults.v"), "w").write(vtext)
-    print("translate: wrote RangeTables.v TermTables.v VSDefaults.v")
+    incompat_ctors(repo, out)
+    print("translate: wrote RangeTables.v TermTables.v VSDefaults.v IncompatCtors.v")
 
 
 if __name__ == "__main__":
